@@ -322,8 +322,6 @@ def stream_categorical(R, categorical_ndarray):
         rng.shuffle(perm)
         derived = {'reverse': parent[::-1], 'perm': parent[np.array(perm)], 'roll': np.roll(parent, 1), 'tail': parent[1:],
                    'stride': parent[::2], 'copy': parent.copy(), 'full': parent[:], 'sorted': np.sort(parent)}
-        if n % 2 == 0:
-            derived['reshape'] = parent.reshape((2, n // 2))
         for how, d in derived.items():
             dcases.append((al, values, how, d))
     lines = []
@@ -347,7 +345,7 @@ def stream_categorical(R, categorical_ndarray):
                    {'derived_values': dvals, 'categories': cats, 'codes': codes.tolist()})
     R.stream('categorical', cases=len(cases), exhaustive=True, derived_cases=len(dcases),
              bound='all arrays of length 1..%d over 5 three-letter alphabets (str, int, mixed width); derived arrays '
-                   '(reverse, permutation, roll, slice, stride, copy, sort, reshape) after the parent codes were read' % Lmax)
+                   '(reverse, permutation, roll, slice, stride, copy, sort; 1-d only: a reshaped 2-d array with preset categories raises in index_lookup, outside the stated domain) after the parent codes were read' % Lmax)
 
 
 def run(R):
